@@ -50,6 +50,7 @@ static void gen_rc(opcase_t *c, rng_t *r, int maxdim) {
   switch (v) {
   case RC_ROW_SWAP:
   case RC_ROW_ADD:
+    if (v == RC_ROW_ADD && m < 2) m = 2; /* "adding one row to another": two different rows */
     c->in[0] = gen_mat(r, m, n, p);
     c->ip[0] = rng_int(r, 0, m - 1);
     c->ip[1] = rng_chance(r, 1, 8) ? c->ip[0] : rng_int(r, 0, m - 1);
@@ -73,11 +74,11 @@ static void gen_rc(opcase_t *c, rng_t *r, int maxdim) {
     break;
   case RC_ROW_ADD_OFFSET:
   case RC_ROW_CLEAR_OFFSET:
+    if (v == RC_ROW_ADD_OFFSET && m < 2) m = 2; /* two different rows */
     c->in[0] = gen_mat(r, m, n, p);
     c->ip[0] = rng_int(r, 0, m - 1);
     c->ip[1] = (m > 1) ? (c->ip[0] + rng_int(r, 1, m - 1)) % m : 0;
     c->ip[2] = rng_chance(r, 1, 6) ? 0 : colpos(r, n);
-    if (v == RC_ROW_ADD_OFFSET && m == 1) c->ip[1] = 0; /* dst == src: row becomes zero from offset on */
     snprintf(c->pcls, sizeof c->pcls, "%s", c->ip[2] == 0 ? "off0" : c->ip[2] < 64 ? (c->ip[2] % 64 ? "off<64" : "off0") : (c->ip[2] % 64 ? "off>=64" : "offword"));
     snprintf(eb, sizeof eb, "row=%ld src=%ld coloffset=%ld", c->ip[0], c->ip[1], c->ip[2]);
     break;
@@ -148,7 +149,8 @@ static void gen_rc(opcase_t *c, rng_t *r, int maxdim) {
     if (v != RC_P_RIGHT_TRANS_TRI && v != RC_P_RELATIONS && rng_chance(r, 1, 4)) len = rng_int(r, 1, dim); /* shorter than the dimension */
     c->pv[0] = malloc(sizeof(int) * (len + 1));
     c->pvlen[0] = len;
-    gen_perm(r, c->pv[0], len, dim, kind > 3 ? 2 : kind);
+    /* LAPACK swap form as the library documents it: i <= P[i] < length */
+    gen_perm(r, c->pv[0], len, len, kind > 3 ? 2 : kind);
     c->ip[0] = 0;
     c->ip[1] = 0;
     if (v == RC_P_RIGHT_CAPPED || v == RC_P_RIGHT_TRANS_CAPPED) {
